@@ -299,6 +299,80 @@ VF_INL SN(__m256i) SN(_mm256_or_si256)(SN(__m256i) a, SN(__m256i) b) {
   for (int i = 0; i < 4; ++i) r.q[i] = a.q[i] | b.q[i];
   return r;
 }
+/* comparison / test / select intrinsics a plausible change to the integer kernels could introduce */
+VF_INL SN(__m256i) SN(_mm256_andnot_si256)(SN(__m256i) a, SN(__m256i) b) {
+  SN(__m256i) r;
+  for (int i = 0; i < 4; ++i) r.q[i] = ~a.q[i] & b.q[i];
+  return r;
+}
+VF_INL int SN(_mm256_testz_si256)(SN(__m256i) a, SN(__m256i) b) {
+  uint64_t x = 0;
+  for (int i = 0; i < 4; ++i) x |= a.q[i] & b.q[i];
+  return x == 0;
+}
+VF_INL int SN(_mm256_testc_si256)(SN(__m256i) a, SN(__m256i) b) {
+  uint64_t x = 0;
+  for (int i = 0; i < 4; ++i) x |= ~a.q[i] & b.q[i];
+  return x == 0;
+}
+VF_INL SN(__m256i) SN(_mm256_cmpeq_epi64)(SN(__m256i) a, SN(__m256i) b) {
+  SN(__m256i) r;
+  for (int i = 0; i < 4; ++i) r.q[i] = a.q[i] == b.q[i] ? ~UINT64_C(0) : 0;
+  return r;
+}
+VF_INL SN(__m256i) SN(_mm256_cmpgt_epi64)(SN(__m256i) a, SN(__m256i) b) {
+  SN(__m256i) r;
+  for (int i = 0; i < 4; ++i) r.q[i] = (int64_t)a.q[i] > (int64_t)b.q[i] ? ~UINT64_C(0) : 0;
+  return r;
+}
+VF_INL SN(__m256i) SN(_mm256_cmpeq_epi32)(SN(__m256i) a, SN(__m256i) b) {
+  SN(__m256i) r;
+  for (int i = 0; i < 4; ++i) {
+    uint64_t lo = (uint32_t)a.q[i] == (uint32_t)b.q[i] ? 0xffffffffULL : 0, hi = (a.q[i] >> 32) == (b.q[i] >> 32) ? 0xffffffffULL : 0;
+    r.q[i] = lo | (hi << 32);
+  }
+  return r;
+}
+VF_INL SN(__m256i) SN(_mm256_blendv_epi8)(SN(__m256i) a, SN(__m256i) b, SN(__m256i) mask) {
+  SN(__m256i) r;
+  for (int i = 0; i < 4; ++i) {
+    uint64_t m = 0;
+    for (int k = 0; k < 8; ++k)
+      if ((mask.q[i] >> (8 * k + 7)) & 1) m |= 0xffULL << (8 * k);
+    r.q[i] = (a.q[i] & ~m) | (b.q[i] & m);
+  }
+  return r;
+}
+VF_INL int SN(_mm256_movemask_epi8)(SN(__m256i) a) {
+  unsigned r = 0;
+  for (int i = 0; i < 4; ++i)
+    for (int k = 0; k < 8; ++k) r |= (unsigned)((a.q[i] >> (8 * k + 7)) & 1) << (8 * i + k);
+  return (int)r;
+}
+VF_INL SN(__m256i) SN(_mm256_sub_epi32)(SN(__m256i) a, SN(__m256i) b) {
+  SN(__m256i) r;
+  for (int i = 0; i < 4; ++i) {
+    uint32_t lo = (uint32_t)a.q[i] - (uint32_t)b.q[i], hi = (uint32_t)(a.q[i] >> 32) - (uint32_t)(b.q[i] >> 32);
+    r.q[i] = (uint64_t)lo | ((uint64_t)hi << 32);
+  }
+  return r;
+}
+VF_INL SN(__m256i) SN(_mm256_srli_epi32)(SN(__m256i) a, int c) {
+  SN(__m256i) r;
+  for (int i = 0; i < 4; ++i) {
+    uint32_t lo = c > 31 ? 0 : (uint32_t)a.q[i] >> c, hi = c > 31 ? 0 : (uint32_t)(a.q[i] >> 32) >> c;
+    r.q[i] = (uint64_t)lo | ((uint64_t)hi << 32);
+  }
+  return r;
+}
+VF_INL SN(__m256i) SN(_mm256_slli_epi32)(SN(__m256i) a, int c) {
+  SN(__m256i) r;
+  for (int i = 0; i < 4; ++i) {
+    uint32_t lo = c > 31 ? 0 : (uint32_t)a.q[i] << c, hi = c > 31 ? 0 : (uint32_t)(a.q[i] >> 32) << c;
+    r.q[i] = (uint64_t)lo | ((uint64_t)hi << 32);
+  }
+  return r;
+}
 VF_INL SN(__m256i) SN(_mm256_xor_si256)(SN(__m256i) a, SN(__m256i) b) {
   SN(__m256i) r;
   for (int i = 0; i < 4; ++i) r.q[i] = a.q[i] ^ b.q[i];
